@@ -247,7 +247,7 @@ def plan(prop, tier):
     if prop == "C18":
         return [{"type": "apimc", "tag": "mc", "consts": {"Depth": 6 if q else 8, "RegIds": "{1, 2}", "ItIds": "{1, 2}",
                                                         "PoolName": '"small"'}},
-                {"type": "apisim", "tag": "sim", "num": 1000 if q else 8000, "depth": 14,
+                {"type": "apisim", "tag": "sim", "num": 1000 if q else 4000, "depth": 14,
                  "consts": {"Depth": 14, "RegIds": "{1, 2, 3}", "ItIds": "{1, 2, 3}", "PoolName": '"wide"'}},
                 {"type": "apisim", "tag": "simzl", "num": 300 if q else 3000, "depth": 9,
                  "consts": {"Depth": 9, "RegIds": "{1}", "ItIds": "{1, 2}", "PoolName": '"zl"'}},
